@@ -2,8 +2,8 @@
    Statements only; proofs are in Proofs*.v. *)
 From Coq Require Import List ZArith Bool Reals.
 Import ListNotations.
-From FV.C20 Require Import Model ModelReindex ProofsCanon ProofsMerge ProofsVol ProofsTransfer
-  ProofsCheck ProofsReindex ProofsExtra ProofsReindexVol.
+From FV.C20 Require Import Model ModelReindex ModelEdge ProofsCanon ProofsMerge ProofsVol ProofsTransfer
+  ProofsCheck ProofsReindex ProofsExtra ProofsReindexVol ProofsEdge.
 
 (* ---- merge step (merge_polyhedrons on one connected group) -------------
    hypothesis wf_poly: faces have >= 3 pairwise distinct nodes and every
@@ -124,6 +124,22 @@ Example C20_example_reindex :
   reindex ps conv = mkReindexed [[[1;0;2]; [3;1;2]; [3;0;1]; [3;2;0]]]%Z
                                 [-1;-1;0;0;-1;1;1;2;-1;3]%Z 4%Z.
 Proof. vm_compute. reflexivity. Qed.
+
+(* ---- remove_one_edge_from_polyhedron (mesh_compressor.py:764): whenever the
+   function accepts (returns True), a closed cell stays closed; no geometric
+   assumption (coplanarity only matters for the volume) *)
+Theorem C20_remove_one_edge_closed : forall p A B p',
+  closed p -> remove_one_edge p A B = Some p' -> closed p'.
+Proof. exact remove_one_edge_closed. Qed.
+
+(* non-vacuity: a cube whose top is split into two triangles along 4-6 *)
+Example C20_example_remove_edge :
+  let p := [[4;5;6]; [4;6;7]; [5;4;0;1]; [6;5;1;2]; [7;6;2;3]; [4;7;3;0]; [3;2;1;0]]%Z in
+  closed_b p = true /\
+  remove_one_edge p 4 6 = Some [[5;4;0;1]; [6;5;1;2]; [7;6;2;3]; [4;7;3;0]; [3;2;1;0]; [4;5;6;7]]%Z /\
+  remove_one_edge p 0 1 =
+    Some [[4;5;6]; [4;6;7]; [6;5;1;2]; [7;6;2;3]; [4;7;3;0]; [0;3;2;1;5;4]]%Z.
+Proof. vm_compute. repeat split; reflexivity. Qed.
 
 Print Assumptions C20_merge_closed.
 Print Assumptions C20_merge_volume.
